@@ -94,7 +94,8 @@ def build_c_object(spec):
     out = os.path.join(BUILD, 'obj', re.sub(r'[^A-Za-z0-9_.=-]', '_', spec) + '.o')
     dep = out + '.d'
     with Lock('obj_' + os.path.basename(out)):
-        if not _deps_changed(out, dep):
+        # (one -MF file records the dependencies of a single translation unit only: several sources => always rebuild)
+        if len(srcs) == 1 and not _deps_changed(out, dep):
             return True, out, ''
         r = sh(['gcc'] + CFLAGS_C + flags + ['-MMD', '-MF', dep, '-I' + REPO, '-c', os.path.join(REPO, rel), '-o', out])
         if r.returncode != 0:
